@@ -99,7 +99,7 @@ theorem prog_sound (k : Nat) (p : Prog) (h : checkProg k p = true) (fuel : Nat) 
   have hd := defsOk_of_checkProg h
   simp only [checkProg, Bool.and_eq_true, Option.isSome_iff_exists] at h
   obtain ⟨_, ⟨t, g'⟩, hc⟩ := h
-  obtain ⟨S', _, hs, ho, _⟩ := block_sound p.defs hd [] ⟨[], [], none⟩ [] {} (stOk_empty _) (envOkB_empty _)
+  obtain ⟨S', _, hs, ho, _⟩ := block_sound p.defs hd [] ⟨[], [], none, []⟩ [] {} (stOk_empty _) (envOkB_empty _)
     k p.main t g' hc fuel
   exact ⟨t, S', by rw [runProg_eq]; exact hs, by rw [runProg_eq]; exact ho⟩
 
@@ -135,12 +135,12 @@ changes during the run is the `Ext` clause of `block_sound`/`stmt_sound`.) -/
 theorem preservation_B (k : Nat) (p : Prog) (h : checkProg k p = true) (fuel : Nat) :
     ∃ (t : T) (S : List T), (runProg fuel p).2.store.length = S.length ∧
       (∀ (i : Nat) v ti, (runProg fuel p).2.store[i]? = some v → S[i]? = some ti → HasTy p.defs S v ti) ∧
-      (checkBlock p.defs k ⟨[], [], none⟩ p.main).map (·.1) = some t ∧
+      (checkBlock p.defs k ⟨[], [], none, []⟩ p.main).map (·.1) = some t ∧
       (∀ v, (runProg fuel p).1 = .val v → HasTy p.defs S v t) := by
   have hd := defsOk_of_checkProg h
   simp only [checkProg, Bool.and_eq_true, Option.isSome_iff_exists] at h
   obtain ⟨_, ⟨t, g'⟩, hc⟩ := h
-  obtain ⟨S', _, hs, ho, _⟩ := block_sound p.defs hd [] ⟨[], [], none⟩ [] {} (stOk_empty _) (envOkB_empty _)
+  obtain ⟨S', _, hs, ho, _⟩ := block_sound p.defs hd [] ⟨[], [], none, []⟩ [] {} (stOk_empty _) (envOkB_empty _)
     k p.main t g' hc fuel
   refine ⟨t, S', ?_, ?_, by simp [hc], ?_⟩
   · rw [runProg_eq]; exact hs.1
@@ -221,9 +221,11 @@ example : checkProg 30 progD = true := by decide
 example : (runProg 40 progD).2.lines = ["1", "2", "3", "4", "3", "124"] := by decide
 
 /-- rejected: assigning a String to an Int local; `break` outside a loop; `return` at top level;
-calling a nilable; wrong arity -/
+wrong arity; redeclaring a local in the same scope; printing a nilable -/
 example : checkProg 30 { modName := "P", defs := [], main := [.decl "x" none (.int 1), .expr (.assign "x" (.str "a"))] } = false := by decide
 example : checkProg 30 { modName := "P", defs := [], main := [.brk none] } = false := by decide
+example : checkProg 30 { modName := "P", defs := [], main := [.decl "x" none (.int 1), .decl "x" none (.int 2)] } = false := by decide
+example : checkProg 30 { modName := "P", defs := [], main := [.decl "z" (some (.opt .int)) .nil, .print (.var "z")] } = false := by decide
 example : checkProg 30 { modName := "P", defs := [], main := [.ret (.int 1)] } = false := by decide
 example : checkProg 30 { modName := "P", defs := [factDef], main := [.expr (.callDef "fact" [])] } = false := by decide
 
@@ -243,7 +245,7 @@ example : EnvOkB [.opt .int, .int] [("z", .opt .int), ("x", .int)] [("z", 0), ("
   · split at h
     · rename_i hy; simp at hy; subst hy; cases h; exact ⟨1, by simp [lookup], rfl⟩
     · cases h
-example : (checkStmt [] 10 ⟨[("z", .opt .int), ("x", .int)], [], none⟩
+example : (checkStmt [] 10 ⟨[("z", .opt .int), ("x", .int)], [], none, []⟩
     (.expr (.assign "z" (.bin .add (.nilco (.var "z") (.int 7)) (.var "x"))))).isSome = true := by decide
 
 end Elk.C01B
